@@ -202,7 +202,57 @@ def build_variant(case):
     return data
 
 
+# ---------------------------------------------------------------- large inputs: one fold around every power-of-two offset
+_BIG = {}
+BIG_BOUNDARIES = (4096, 8192, 16384, 32768, 65536, 131072)
+
+
+def big_lines():
+    lines = ["BEGIN:VCALENDAR", "VERSION:2.0", "PRODID:-//verif//c09-big//EN"]
+    i = 0
+    while sum(len(x) + 2 for x in lines) < 135000:
+        i += 1
+        lines += ["BEGIN:VEVENT", f"UID:event-{i:04d}@example.com", f"DTSTART;TZID=Europe/Berlin:2024{1 + i % 12:02d}{1 + i % 28:02d}T100000",
+                  f"SUMMARY:Meeting number {i}\\, room {i % 7}; bring notes", f"X-SEQ;X-P={i % 5}:{'v' * (i % 40)}", "END:VEVENT"]
+    return lines + ["END:VCALENDAR"]
+
+
+def run_big(case):
+    """('bigfold', provider, boundary, delta, eol, ws, as_str): a text of ~135 KB without folds, then ONE fold whose line break
+    ends at offset boundary+delta: the same tree as the text without it (a reader that works in blocks must not care)."""
+    _, provider, boundary, delta, eol, ws, as_str = case
+    env.use_provider(provider)
+    if provider not in _BIG:
+        lines = big_lines()
+        c0 = Calendar.from_ical("\r\n".join(lines) + "\r\n")
+        _BIG[provider] = (lines, snapshot(c0), c0.to_ical())
+        env.use_provider(provider)
+    lines, want_snap, want_ical = _BIG[provider]
+    text = eol.join(lines) + eol
+    pos = boundary + delta - len(eol)
+    fails = []
+    if pos <= 0 or pos >= len(text) - 1 or text[pos - 1] in "\r\n" or text[pos] in "\r\n":
+        return {"state": ("big-skip",), "trans": 0, "traces": 0, "nontrivial": False, "outcome": "big:not-between-two-characters", "fails": []}
+    variant = text[:pos] + eol + ws + text[pos:]
+    data = variant if as_str else variant.encode("utf-8")
+    try:
+        c = Calendar.from_ical(data)
+        got = snapshot(c)
+        out = c.to_ical()
+    except Exception as e:  # noqa: BLE001
+        fails.append(fail("bigfold:variant-rejected", case, "same tree as the unfolded text", f"{type(e).__name__}: {str(e)[:100]}"))
+        return {"state": ("big-rejected",), "trans": 1, "nontrivial": True, "outcome": "rejected", "fails": fails}
+    if got != want_snap:
+        fails.append(fail("bigfold:tree-differs", case, "same tree as the unfolded text", diff_hint(want_snap, got)))
+    elif out != want_ical:
+        fails.append(fail("bigfold:reserialisation-differs", case, len(want_ical), len(out)))
+    return {"state": ("big", provider, "same" if not fails else repr(diff_hint(want_snap, got))[:80]), "trans": 2, "nontrivial": True,
+            "outcome": "same" if not fails else "FAIL", "fails": fails}
+
+
 def run_case(case):
+    if case[0] == "bigfold":
+        return run_big(case)
     provider, bname = case[1], case[2]
     want_snap, want_ical = base_obs(provider, bname)
     env.use_provider(provider)
@@ -232,7 +282,7 @@ def run(ctx):
                 "SP and TAB, folds every j characters (j=1,2,3,74) with SP and TAB; then every subset of {LF, BOM, str, trailing "
                 "blank lines (0/1/3)} x every combination of 4 casings on 4 kinds of names (256) x {as is, fold after every "
                 "character}; plus (R1 partially) every line break CRLF or LF on its own: exactly one LF, exactly one CRLF, alternating, LF up to / from "
-                "every line index x {no fold, a CRLF fold, an LF fold in every line} x str/bytes x trailing blank lines; all under both providers" + (" (quick: case combinations restricted to those where at most two kinds of "
+                "every line index x {no fold, a CRLF fold, an LF fold in every line} x str/bytes x trailing blank lines; a 135 KB text with ONE fold whose line break ends at offset 2^k + d (k = 12..17, d = -6..6) x CRLF/LF x SP/TAB x str/bytes; all under both providers" + (" (quick: case combinations restricted to those where at most two kinds of "
                 "names are re-cased; thorough: all 256)" if ctx.quick else "") + ". non-trivial = every variant differs from its base text.")
     ctx.bounds = {"bases": len(BASES), "casings": CASINGS, "targets": TARGETS}
     ctx.assumptions += ["a str input starting with U+FEFF is excluded (the byte-order mark is a property of byte input)",
@@ -279,6 +329,20 @@ def run(ctx):
                                         continue
                                     yield ("eolmix", provider, b, pattern, idx, as_str, foldeol, trailing)
 
+    def gen_big():
+        for provider in env.PROVIDERS:
+            if ctx.quick and provider == "pytz":
+                continue
+            for boundary in BIG_BOUNDARIES:
+                for delta in range(-6, 7):
+                    for eol in ("\r\n", "\n"):
+                        for ws in (" ", "\t"):
+                            for as_str in (False, True):
+                                if ctx.quick and (ws == "\t") != as_str:
+                                    continue
+                                yield ("bigfold", provider, boundary, delta, eol, ws, as_str)
+
     ctx.explore("fold-placement", gen_folds, run_case)
+    ctx.explore("one-fold-around-block-boundaries-of-a-large-text", gen_big, run_case, limit=60.0)
     ctx.explore("line-break-mixtures", gen_eolmix, run_case)
     ctx.explore("rewrite-compositions", gen_combo, run_case)
